@@ -40,6 +40,7 @@ func (d *Disk) SnapshotLocked() *Snapshot {
 		meta: d.meta, nextIno: d.nextIno, hist: d.Hist.clone()}
 	add := func(ino *inode) int {
 		if _, ok := s.inodes[ino.id]; !ok {
+			ino.durShared = true
 			s.inodes[ino.id] = &inodeSnap{id: ino.id, dur: ino.dur, pend: ino.pend[:len(ino.pend):len(ino.pend)], volLen: len(ino.vol), synced: ino.synced}
 		}
 		return ino.id
@@ -139,7 +140,7 @@ func (s *Snapshot) Image(v Variant) *Disk {
 	inos := map[int]*inode{}
 	if v.Kill {
 		for id, is := range s.inodes {
-			ino := &inode{id: id, dur: is.dur, synced: is.synced}
+			ino := &inode{id: id, dur: is.dur, synced: is.synced, durShared: true}
 			ino.vol = make([]byte, is.volLen)
 			copy(ino.vol, is.dur)
 			for _, w := range is.pend {
